@@ -5,7 +5,7 @@
    the equality with Model/UQ.wtrap on general grids is compared per case on every run (extracted generated function against the
    extracted hand model on the implementation's moments, exact) - see Proofs/GenUQGridEq.v for what is missing for a proof. *)
 From Coq Require Import ZArith List Bool QArith Qcanon.
-From SG Require Import Base.QcUtil Base.PyLib Base.PyNum Base.PyNumUQ Model.Trap Model.UQ Gen.UQGridGen Proofs.GenUQGridEq.
+From SG Require Import Base.QcUtil Base.PyLib Base.PyNum Base.PyNumUQ Model.Trap Model.UQ Gen.UQGridGen Proofs.UQ Proofs.GenUQGridEq.
 Import ListNotations.
 
 (* the method of the grid object is the static function on the moment lists of ITS dimension: nothing else of the object enters
@@ -32,6 +32,45 @@ Print Assumptions C15gen_one_point.
 Print Assumptions C15gen_three_points_noboundary.
 Print Assumptions C15gen_two_points_noboundary_raises.
 Print Assumptions C15gen_no_points.
+
+(* ==== PHASE 4: the whole function, ALL n ==== *)
+(* unemb q = the extended-real grid point the rational q stands for (|q| >= 2^1024: +-inf); ivs_of x m0s m1s = the intervals of the
+   hand model for the point list x and the moment lists.  Precondition: two neighbouring FINITE points differ (where the Python
+   divides by zero).  The generated moment loop (two cells per iteration), the clipping loop with its assert and the renormalisation
+   of the inner cells are Model/UQ.wtrap. *)
+Theorem C15gen_compute_weights_eq : forall x a b m0s m1s bd,
+  (2 <= length x)%nat -> length m0s = (length x - 1)%nat -> length m1s = (length x - 1)%nat ->
+  (forall k, (S k < length x)%nat -> py_isinf (nth k x 0%Qc) = false -> py_isinf (nth (S k) x 0%Qc) = false ->
+             nth (S k) x 0%Qc <> nth k x 0%Qc) ->
+  GlobalTrapezoidalGridWeighted_compute_weights x a b m0s m1s bd false = wtrap bd false a b (ivs_of x m0s m1s).
+Proof. exact gen_compute_weights_eq. Qed.
+(* the modified-basis branch on strictly increasing finite grids (through the C09 equivalence of GlobalTrapezoidalGrid.compute_weights) *)
+Theorem C15gen_compute_weights_modified_eq : forall x a b m0s m1s bd,
+  (2 <= length x)%nat -> strictly_increasing x -> (forall q, In q x -> py_isinf q = false) -> a <> b ->
+  GlobalTrapezoidalGridWeighted_compute_weights x a b m0s m1s bd true = wtrap bd true a b (ivs_of x m0s m1s).
+Proof. exact gen_compute_weights_mod_eq. Qed.
+(* hence the C15 statements hold for what the CODE says: whenever the translated method returns, its weights are non-negative,
+   and without boundary points they sum to 1 - for arbitrary moment inputs *)
+Theorem C15gen_weights_nonneg : forall x a b m0s m1s bd w,
+  (2 <= length x)%nat -> length m0s = (length x - 1)%nat -> length m1s = (length x - 1)%nat ->
+  (forall k, (S k < length x)%nat -> py_isinf (nth k x 0%Qc) = false -> py_isinf (nth (S k) x 0%Qc) = false ->
+             nth (S k) x 0%Qc <> nth k x 0%Qc) ->
+  GlobalTrapezoidalGridWeighted_compute_weights x a b m0s m1s bd false = Some w -> forall t, In t w -> (0 <= t)%Qc.
+Proof.
+  intros x a b m0s m1s bd w H1 H2 H3 H4 E. rewrite gen_compute_weights_eq in E by assumption. exact (wtrap_nonneg _ _ _ _ _ E).
+Qed.
+Theorem C15gen_weights_sum_one_noboundary : forall x a b m0s m1s w,
+  (2 <= length x)%nat -> length m0s = (length x - 1)%nat -> length m1s = (length x - 1)%nat ->
+  (forall k, (S k < length x)%nat -> py_isinf (nth k x 0%Qc) = false -> py_isinf (nth (S k) x 0%Qc) = false ->
+             nth (S k) x 0%Qc <> nth k x 0%Qc) ->
+  GlobalTrapezoidalGridWeighted_compute_weights x a b m0s m1s false false = Some w -> sumQ w = 1%Qc.
+Proof.
+  intros x a b m0s m1s w H1 H2 H3 H4 E. rewrite gen_compute_weights_eq in E by assumption. exact (wtrap_sum_one_noboundary _ _ _ _ E).
+Qed.
+Print Assumptions C15gen_compute_weights_eq.
+Print Assumptions C15gen_compute_weights_modified_eq.
+Print Assumptions C15gen_weights_nonneg.
+Print Assumptions C15gen_weights_sum_one_noboundary.
 
 (* non-vacuity: the generated function on a concrete grid with an infinite left end (triangle-like masses), with and without
    boundary points, equals the hand model *)
